@@ -39,7 +39,21 @@ func safe(f func() string) (out string) {
 // prints `view ; img=<fnv of dst[:cap)> ; canary=… dstdep=…`
 func implDecode(f []string, o *oracleSink) string {
 	dl, dc, nilF, fs := atoi(f[1]), atoi(f[2]), f[3] == "1", atoi(f[4])
-	dict, src := unhx(f[5]), unhx(f[6])
+	// source and dictionary live inside larger buffers (spare capacity, foreign bytes before and after):
+	// nothing outside their length may influence the result
+	embed := func(b []byte, sentinel byte) []byte {
+		if len(b) == 0 {
+			return b
+		}
+		big := make([]byte, 32+len(b)+96)
+		for k := range big {
+			big[k] = sentinel + byte(k%3)
+		}
+		copy(big[32:], b)
+		return big[32 : 32+len(b)]
+	}
+	dict0, src0 := unhx(f[5]), unhx(f[6])
+	dict, src := embed(dict0, 0xE0), embed(src0, 0xE0)
 	buf := fill(dc, fs)
 	var dst []byte
 	if !nilF {
@@ -60,6 +74,14 @@ func implDecode(f []string, o *oracleSink) string {
 		}
 		if !bytes.Equal(src, srcCopy) || !bytes.Equal(dict, dictCopy) {
 			notes += " INPUT-MODIFIED"
+		}
+		// the same call with other bytes around source and dictionary: same outcome, same destination image
+		if !nilF {
+			buf3 := fill(dc, fs)
+			n3, err3 := lz4.UncompressBlockWithDict(embed(src0, 0x10), buf3[:dl], embed(dict0, 0x10))
+			if n3 != n || (err3 == nil) != (err == nil) || !bytes.Equal(buf3, buf) {
+				notes += " READS-OUTSIDE-INPUT"
+			}
 		}
 		ask := fmt.Sprintf("SD %d %s %s", len(dst), hx(dict), hx(src))
 		if err != nil {
